@@ -61,6 +61,7 @@ func vfH_Burst() {
 	vfSet("dpor", 0)
 	for i := 0; i < pre; i++ {
 		mon.set(c, uint64(i), 1, time.Duration(vfParam("prettl", 0)))
+		c.Wait() // applied before the next one is written (the write buffer may be smaller than pre)
 	}
 	c.Wait()
 	vfSet("dpor", 1)
@@ -70,6 +71,9 @@ func vfH_Burst() {
 		// far enough for the item's bucket to be swept
 		vfSet("clock-horizon", vfParam("horizon", 11))
 		vfSet("ticks", t)
+	}
+	if vfParam("maporder", 1) == 0 {
+		vfSet("map-order-fork", 0) // one enumeration order of the policy's sampling map
 	}
 	gets := 0
 	raised := false
@@ -147,7 +151,13 @@ func vfH_Burst() {
 		}
 		vfQuiescent(c, mon, nk, maxCost, raised, gets, metrics)
 		if vfParam("drain", 0) == 1 {
-			// delete every key: afterwards nothing is charged and nothing is enumerated
+			// delete every key: afterwards nothing is charged and nothing is enumerated. The epilogue
+			// runs under one schedule (run to completion) unless drainfull=1: the burst before it has
+			// been explored in every interleaving, the epilogue only reads out its effect
+			if vfParam("drainfull", 0) == 0 {
+				vfSet("preempt", 0)
+				vfSet("dpor", 0)
+			}
 			for k := 0; k < nk; k++ {
 				c.Del(uint64(k))
 			}
